@@ -67,6 +67,17 @@ Pass(d, m, rm) ==
             ELSE LET q == PassSeq(d.items, m, rm, TRUE) IN Res([d EXCEPT !.items = q.ds], q.rm, q.err)
       [] OTHER -> Res(d, rm, FALSE)                         \* a list directly inside a list, ints, null
 
+\* the whole algorithm as a function (the same passes, folded): used to compare the model's outcome with the
+\* real expander's on every document of the universes (binding of this model; drift is reported, not alarmed)
+RECURSIVE RunFrom(_, _, _, _)
+RunFrom(d, M, r, k) ==
+    IF k > Len(M)
+    THEN LET left == IF FinalScan THEN r \cup AtNames(d) ELSE r IN
+         [outcome |-> IF left # {} THEN "error" ELSE "ok", doc |-> d]
+    ELSE LET x == Pass(d, M[k], r) IN
+         IF x.err THEN [outcome |-> "error", doc |-> d] ELSE RunFrom(x.d, M, x.rm, k + 1)
+RunModel(p, M) == IF BadMacroNames(M) # {} THEN [outcome |-> "error", doc |-> DMap1("$and", p)] ELSE RunFrom(DMap1("$and", p), M, {}, 1)
+
 ----------------------------------------------------------------------------
 VARIABLES orig, defs, doc, rm, i, outcome
 vars == <<orig, defs, doc, rm, i, outcome>>
